@@ -17,6 +17,9 @@ import AfkakProofs.Crc.Wrapped
 import AfkakProofs.Crc.Refetch
 import AfkakProofs.Crc.AnyPosition
 import AfkakProofs.Crc.RefetchDelivery
+import AfkakProofs.Crc.RefetchStep
+import AfkakProofs.Crc.BurstBytes
+import AfkakProofs.Crc.CorruptSetAny
 import AfkakProps.Open.C12
 /-!
 # C12 — corrupted or truncated message data is never delivered; decoding is linear
@@ -161,6 +164,76 @@ example :
     ((e'.take 4).all (fun b => b == 0) || (e'.drop 4).all (fun b => b == 0)) = true := by
   decide +kernel
 
+/-- **Four consecutive bytes, CRC level — no bit order involved.**  Two byte strings that differ only
+    inside one window of at most four consecutive bytes have different CRC-32s: every prefix, every
+    suffix, every length. -/
+theorem C12_window_crc (pre w w' post : List UInt8) (hl : w.length = w'.length) (h4 : w.length ≤ 4)
+    (hne : w ≠ w') : crc32 (pre ++ w ++ post) ≠ crc32 (pre ++ w' ++ post) :=
+  crc32_window_bytes pre w w' post hl h4 hne
+
+/-- **Four consecutive bytes, message level.**  `msg` carries a matching CRC; `msg'` has the same
+    length, is a different byte string, and agrees with `msg` outside the byte window `[i, i+n)`,
+    `n ≤ 4` — ANY alteration of those bytes, any message length, any window position in the
+    checksummed region (`4 ≤ i`: magic, attributes, timestamp, key, value and their length fields) or
+    in the stored CRC word (`i + n ≤ 4`).  `_decode_message` rejects `msg'` with `ChecksumError` and
+    yields nothing.  The only windows excluded are those containing both byte 3 and byte 4. -/
+theorem C12_window_bytes (inner : List UInt8 → SetOut) (gz : Gz) (off : Int) (msg msg' : List UInt8)
+    (i n : Nat) (hcrc : crcOk msg = true) (hl : msg'.length = msg.length) (hne : msg' ≠ msg) (hn : n ≤ 4)
+    (hpre : msg'.take i = msg.take i) (hpost : msg'.drop (i + n) = msg.drop (i + n))
+    (hns : 4 ≤ i ∨ i + n ≤ 4) :
+    decodeMessage inner gz (some msg') off = .out [] (some .checksum) (1 + (msg.length - 4)) 0 :=
+  decodeMessage_window_bytes inner gz off msg msg' i n hcrc hl hne hn hpre hpost hns
+
+/-- non-vacuity: the 27-byte message of the examples below with its key-length field (bytes 14..17,
+    `ff ff ff ff` = null key) overwritten by `00 00 00 01`, and with its stored CRC overwritten -/
+example :
+    let msg : List UInt8 := [0x49, 0x95, 0xe6, 0x5e, 0x01, 0x00, 0, 0, 0, 0, 0, 0, 0, 0,
+      0xff, 0xff, 0xff, 0xff, 0, 0, 0, 5, 0, 0, 0, 0, 0]
+    let msg' : List UInt8 := [0x49, 0x95, 0xe6, 0x5e, 0x01, 0x00, 0, 0, 0, 0, 0, 0, 0, 0,
+      0, 0, 0, 1, 0, 0, 0, 5, 0, 0, 0, 0, 0]
+    let msg'' : List UInt8 := [0, 0, 0, 0, 0x01, 0x00, 0, 0, 0, 0, 0, 0, 0, 0,
+      0xff, 0xff, 0xff, 0xff, 0, 0, 0, 5, 0, 0, 0, 0, 0]
+    crcOk msg = true ∧ msg'.length = msg.length ∧ msg' ≠ msg ∧
+    msg'.take 14 = msg.take 14 ∧ msg'.drop (14 + 4) = msg.drop (14 + 4) ∧
+    msg''.length = msg.length ∧ msg'' ≠ msg ∧ msg''.take 0 = msg.take 0 ∧
+    msg''.drop (0 + 4) = msg.drop (0 + 4) := by
+  decide +kernel
+
+/-- **Every message-level detection result, inside a message set.**  Entries `before` the altered
+    message may be plain messages or gzip wrappers of either format (`SetEntry.WellFormed`); the
+    altered message is `msg ⊕ e` for a non-zero burst `e` of span ≤ 32 bits ANYWHERE in the message
+    that does not straddle the CRC-word/data boundary (the hypotheses of
+    `C12_burst_any_position_partial`: bursts of the checksummed region AND alterations of the stored
+    CRC word).  Iteration yields exactly what `before` contains, then raises `ChecksumError`,
+    whatever follows. -/
+theorem C12_burst_nonstraddling_in_set (gz : Gz) (depth : Nat) (before : List SetEntry) (off : Int)
+    (msg e : List UInt8) (k : Nat) (tail : List UInt8)
+    (hwf : ∀ s ∈ before, s.WellFormed gz) (ho : int64 off = true) (hlen : msg.length < 2147483648)
+    (hcrc : crcOk msg = true) (hel : e.length = msg.length) (hnz : nonzero e = true)
+    (hw : burstWithin e k 32 = true)
+    (hns : ((e.take 4).all (fun b => b == 0) || (e.drop 4).all (fun b => b == 0)) = true) :
+    let bad := xorBytes msg e
+    let data := encodeEntries before ++ (toBESigned 8 off ++ toBESigned 4 bad.length ++ bad) ++ tail
+    (decodeSet gz (depth + 1) data).msgs = before.flatMap SetEntry.yields ∧
+    (decodeSet gz (depth + 1) data).err = some Err.checksum :=
+  decodeSet_rejected_entries gz depth before off (xorBytes msg e) _ tail hwf ho
+    (by rw [xorBytes_length _ _ hel]; exact hlen)
+    (fun inner => decodeMessage_burst_nonstraddling inner gz off msg e k hcrc hel hnz hw hns)
+
+/-- The same for a message that differs from the original inside a window of at most four
+    consecutive bytes (hypotheses of `C12_window_bytes`). -/
+theorem C12_window_in_set (gz : Gz) (depth : Nat) (before : List SetEntry) (off : Int)
+    (msg msg' : List UInt8) (i n : Nat) (tail : List UInt8)
+    (hwf : ∀ s ∈ before, s.WellFormed gz) (ho : int64 off = true) (hlen : msg.length < 2147483648)
+    (hcrc : crcOk msg = true) (hl : msg'.length = msg.length) (hne : msg' ≠ msg) (hn : n ≤ 4)
+    (hpre : msg'.take i = msg.take i) (hpost : msg'.drop (i + n) = msg.drop (i + n))
+    (hns : 4 ≤ i ∨ i + n ≤ 4) :
+    let data := encodeEntries before ++ (toBESigned 8 off ++ toBESigned 4 msg'.length ++ msg') ++ tail
+    (decodeSet gz (depth + 1) data).msgs = before.flatMap SetEntry.yields ∧
+    (decodeSet gz (depth + 1) data).err = some Err.checksum :=
+  decodeSet_rejected_entries gz depth before off msg' _ tail hwf ho (by rw [hl]; exact hlen)
+    (fun inner => decodeMessage_window_bytes inner gz off msg msg' i n hcrc hl hne hn hpre hpost hns)
+
 /-! ## (b) truncation -/
 
 /-- **Truncation.**  Iterating the first `c` bytes of an encoded set of plain messages yields
@@ -258,7 +331,9 @@ theorem C12_grow_is_consumer_grow (b : Nat) (max : Option Nat) :
     receives a reply with no complete message and the fetch-size-too-small ending keeps its fetch
     offset and sets its buffer to `grow buffer max` (at the maximum: keeps both and fails `start`).
     The other half of `refetchOk` (complete messages were delivered: the next fetch starts after
-    the last of them with the same buffer) is the open statement `C12_refetch_after_delivery`. -/
+    the last of them with the same buffer) is `C12_refetch_after_delivery_model` / `_step` below;
+    the statement `Open.C12_refetch_after_delivery` itself quantifies over arbitrary `inner` and is
+    false as written (`C12_refetch_after_delivery_counterexample`), so it stays open. -/
 theorem C12_refetch_model (cfg : Afkak.Consumer.Cfg) (inner : Afkak.Consumer.Ops) (k : Nat)
     (s : Afkak.Consumer.St) (hr : s.startD = .pending) (hb : s.msgBlock = false)
     (offs : List Int) (c : Nat) (hc : 0 < c) :
@@ -302,6 +377,50 @@ theorem C12_refetch_after_delivery_partial (cfg : Afkak.Consumer.Cfg) (inner : A
 
 /-- non-vacuity of the hypothesis `OpsK`: the API the model runs with satisfies it at every depth -/
 example (cfg : Afkak.Consumer.Cfg) (n : Nat) : OpsK (Afkak.Consumer.opsN cfg n) := opsN_k cfg n
+
+/-- **The same on the model's transition function — no `inner` to choose.**  `step` (the function `run`
+    folds over the event list) hands `handleFetchResponse` the model's own API `opsN cfg cfg.depth`.
+    For EVERY state `s` (so every state `run cfg script evs` reaches) that is not crashed, has this
+    fetch request outstanding, is running and has no block in progress: the event "fetch reply `k`
+    with complete messages `m :: ms` (ascending from the fetch position), normal end" leaves the fetch
+    position right after the last message and the buffer size unchanged — whatever the processor
+    script in `s` does (re-entrant `stop`/`commit`/`shutdown`).  This is
+    `Open.C12_refetch_after_delivery` with the quantifier over `inner` replaced by the one API the model
+    can run; the hypotheses `stopping = false`, `shuttingDown = false` are not needed. -/
+theorem C12_refetch_after_delivery_step (cfg : Afkak.Consumer.Cfg) (k : Nat) (s : Afkak.Consumer.St)
+    (m : Afkak.Consumer.Msg) (ms : List Afkak.Consumer.Msg)
+    (hc : s.crashed = false)
+    (hq : (s.requestD == .pending k .fetch false || s.requestD == .pending k .fetch true) = true)
+    (hr : s.startD = .pending) (hb : s.msgBlock = false)
+    (hp : ((m :: ms).map (·.off)).Pairwise (· < ·)) (hf : s.fetchOffset ≤ m.off) :
+    let s' := Afkak.Consumer.step cfg s (.fetchOk k { msgs := m :: ms, tail := .done })
+    refetchOk ((m :: ms).map (·.off)) (ms.length + 1) s.fetchOffset s'.fetchOffset s.bufferSize cfg.bufMax 1
+      (some s'.bufferSize) = true :=
+  consumer_refetch_after_delivery_step cfg k s m ms hc hq hr hb hp hf
+
+/-- non-vacuity: the state reached by `start(5)` enables the event and meets every hypothesis, with a
+    processor script that re-enters `stop()` -/
+example :
+    let cfg : Afkak.Consumer.Cfg := { group := false, autoN := 0, autoS := 0, bufInit := 10, bufMax := none, retryInit := 1, retryMax := 1, maxAttempts := 0, reset := none }
+    let s := Afkak.Consumer.run cfg [{ acts := [.stop], res := .ok }] [.start 5]
+    s.crashed = false ∧
+    (s.requestD == .pending 0 .fetch false || s.requestD == .pending 0 .fetch true) = true ∧
+    s.startD = .pending ∧ s.msgBlock = false ∧ s.fetchOffset ≤ 5 := by
+  decide +kernel
+
+/-- The too-small half (`C12_refetch_model`) on `step` as well: same states, reply with no complete
+    message and the fetch-size-too-small ending — same fetch position, buffer `grow buffer max`. -/
+theorem C12_refetch_model_step (cfg : Afkak.Consumer.Cfg) (k : Nat) (s : Afkak.Consumer.St)
+    (hc : s.crashed = false)
+    (hq : (s.requestD == .pending k .fetch false || s.requestD == .pending k .fetch true) = true)
+    (hr : s.startD = .pending) (hb : s.msgBlock = false) (offs : List Int) (c : Nat) (hc0 : 0 < c) :
+    refetchOk offs 0 s.fetchOffset
+      (Afkak.Consumer.step cfg s (.fetchOk k { msgs := [], tail := .small })).fetchOffset
+      s.bufferSize cfg.bufMax c
+      (match Afkak.Consumer.grow s.bufferSize cfg.bufMax with
+        | some _ => some (Afkak.Consumer.step cfg s (.fetchOk k { msgs := [], tail := .small })).bufferSize
+        | none => none) = true :=
+  consumer_refetchOk_step cfg k s hc hq hr hb offs c hc0
 
 /-- As stated — for an ARBITRARY `inner : Ops` — `Open.C12_refetch_after_delivery` is false: `Ops` is
     any four functions on states, e.g. a `stop` that rewinds the fetch position.  That is not afkak's
@@ -650,6 +769,10 @@ C12_burst_in_set_wrapped
 C12_burst_monitor
 C12_burst_any_position_counterexample
 C12_burst_any_position_partial
+C12_window_crc
+C12_window_bytes
+C12_burst_nonstraddling_in_set
+C12_window_in_set
 C12_truncate
 C12_truncate_monitor
 C12_truncate_wrapped
@@ -662,6 +785,8 @@ C12_grow_is_consumer_grow
 C12_refetch_model
 C12_refetch_after_delivery_model
 C12_refetch_after_delivery_partial
+C12_refetch_after_delivery_step
+C12_refetch_model_step
 C12_refetch_after_delivery_counterexample
 C12_linear_readers
 C12_linear_api_versions
